@@ -18,7 +18,10 @@ REPO = os.environ.get("QBV_SELFTEST_SRC", "/repo")
 
 
 def load_mutants():
-    spec = importlib.util.spec_from_file_location("mutants", os.path.join(HERE, "mutants.py"))
+    # --challenge: the exploratory corpus (selftest/challenge.py): mutants written without looking at the rules, run
+    # against ALL checks, to find classes of mistakes no rule covers yet
+    name = "challenge" if "--challenge" in sys.argv else "mutants"
+    spec = importlib.util.spec_from_file_location(name, os.path.join(HERE, name + ".py"))
     m = importlib.util.module_from_spec(spec)
     spec.loader.exec_module(m)
     return m.MUTANTS
@@ -67,9 +70,9 @@ def main():
             bad += 1
             continue
         env = dict(os.environ, QBV_REPO=dst, QBV_EVIDENCE_DIR=os.path.join(SCRATCH, "evidence"))
-        r = subprocess.run([os.path.join(VERIF, "check"), m["prop"], "quick"], cwd=VERIF, env=env, stdout=subprocess.PIPE, stderr=subprocess.STDOUT, text=True)
+        r = subprocess.run([os.path.join(VERIF, "check"), m.get("prop", "all"), "quick"], cwd=VERIF, env=env, stdout=subprocess.PIPE, stderr=subprocess.STDOUT, text=True)
         out = r.stdout
-        fired = [l for l in out.splitlines() if m["expect"] in l and not l.startswith("VIOLATION")]
+        fired = [l for l in out.splitlines() if m.get("expect", "] ") in l and re.search(r": C\d+\.[a-z] \[", l)]
         status = "ok"
         if "ENGINE-ERROR" in out:
             status = "ENGINE-ERROR (mutant does not compile?)"
@@ -79,7 +82,9 @@ def main():
             ok += 1
         else:
             bad += 1
-        print("%-60s %-8s %s  [%.1fs]" % (m["id"], m["prop"], status, time.time() - t0))
+        print("%-60s %-8s %s  [%.1fs]" % (m["id"], m.get("prop", "all"), status, time.time() - t0))
+        if "--challenge" in sys.argv and status == "ok":
+            print("   caught by: " + "; ".join(sorted({re.search(r"\[([^\]]+)\]", l).group(1) for l in fired}))[:300])
         if status != "ok":
             print("   expected a report containing: %s" % m["expect"])
             print("   " + "\n   ".join(out.splitlines()[-8:]))
